@@ -207,4 +207,4 @@ def run(tier, out, model_ok, proof):
         "correspondence_mismatches": len(mism),
         "exhaustive": False,
     })
-    out.assumptions += ["PARTIAL: split = unsplit is checked metamorphically, not proved; one-step preservation of the core state across the file switch is a theorem"]
+    out.assumptions += ["PARTIAL: split = unsplit is checked metamorphically, not proved; theorems: preservation of the core state across the file switch, and the round trip (balanced runs keep file and scanner stack; the includer resumes with the configuration it was suspended with; end-of-file finalisation is harmless), for include trees of any depth"]
